@@ -18,6 +18,13 @@ CLAIMED = {
              "messages) is a record that TLC judges with the same monitor (EodOnce/NoBareLF/lines preserved).",
         note="alphabet {CR,LF,'.',x} represents the byte classes; scripted server and seam harness are trusted to record bytes faithfully",
         design="5 C06"),
+    "C18": dict(
+        technique="TLA+ monitors for the cleaner and spawner request grammars, TLC model check of the transcribed request check, TLC validation of shim-recorded unlink/open/exec/status events of the real qmail-clean and qmail-rspawn",
+        text="TLC checks the transcription of qmail-clean's request check against the monitor CleanVerdict for every request of a bounded domain; the real "
+             "qmail-clean (every unlink path and status byte recorded by the shim, attributed per request by sentinel requests) and the real qmail-rspawn "
+             "(every open path, every report, every started delivery agent) are driven over enumerated and random hostile streams and each record is judged by TLC.",
+        note="part 3 (hostile bytes on qmail-send's report channels) is covered once the daemon controller exists; shim trace assumed complete for unlink/open/write",
+        design="5 C18"),
 }
 
 NOT_YET = "check not built yet in this round (work in progress, see DESIGN.md section 11)"
